@@ -5,6 +5,7 @@ import (
 	"fmt"
 	"math/big"
 	"math/rand"
+	"strings"
 	"sync"
 	"time"
 
@@ -39,6 +40,10 @@ type Step struct {
 	Parent int // opensub: 0 = the ledger channel, k+1 = sub-channel k (a sub-channel of a sub-channel)
 	N      int
 	Adv    *Adv // for "adv": between steps; for "pay"/"paysub": during the update
+	// TSBy >= 0 (with TS): while this sub-channel update is in flight (the peer's handler has not answered), party TSBy
+	// calls Settle on the ledger channel with a short deadline; it must fail and change nothing
+	TS   bool
+	TSBy int
 }
 
 type Scenario struct {
@@ -160,6 +165,14 @@ func GenScenario(r *rand.Rand, c04 bool) *Scenario {
 		default:
 			s.Steps = append(s.Steps, pay())
 		}
+	}
+	if !c04 && len(open) > 0 && r.Intn(3) == 0 {
+		// a Settle attempt on the ledger channel that times out while a sub-channel update is in flight; afterwards
+		// everything must go on as usual
+		k := open[r.Intn(len(open))]
+		s.Steps = append(s.Steps, Step{Kind: "paysub", By: r.Intn(2), Amt: amt(), Accept: r.Intn(3) != 0, Sub: k, TS: true, TSBy: r.Intn(2)})
+		s.Steps = append(s.Steps, pay())
+		s.Steps = append(s.Steps, Step{Kind: "paysub", By: r.Intn(2), Amt: amt(), Accept: true, Sub: k})
 	}
 	// some sub-channels are closed cooperatively (settled into the parent), the others stay open
 	closing := r.Intn(3)
@@ -294,6 +307,9 @@ type Run struct {
 	Notes    []string
 	AdvDone  []AdvCall
 	CloseErr []string // cooperative settlements of sub-channels that failed
+	TSDone   bool     // a Settle attempt with a short deadline failed during an in-flight update (as scripted)
+	AfterTS  []string // operations that did not complete after that attempt
+	deadline time.Duration
 	InitAcc  string
 }
 
@@ -319,8 +335,21 @@ func (r *Run) partyOf(j int) *Party { return r.Env.P[(r.Sc.Proposer+j)%2] }
 // channel index of a party
 func (r *Run) idxOf(p int) int { return (p - r.Sc.Proposer + 2) % 2 }
 
-func ctxOp() (context.Context, context.CancelFunc) {
-	return context.WithTimeout(context.Background(), opDeadline)
+func (r *Run) ctxOp() (context.Context, context.CancelFunc) {
+	d := opDeadline
+	if r.deadline > 0 {
+		d = r.deadline
+	}
+	return context.WithTimeout(context.Background(), d)
+}
+
+// afterTSDeadline bounds operations after a scripted Settle attempt that timed out: if that attempt left
+// something locked every later operation on the channel hangs; they are judged (class settle-after-timeout).
+const afterTSDeadline = 40 * time.Second
+
+// hung reports an error of an operation that did not complete in time.
+func hung(err error) bool {
+	return err != nil && (strings.Contains(err.Error(), "deadline exceeded") || strings.Contains(err.Error(), "locking machine mutex") || strings.Contains(err.Error(), "locking recursive"))
 }
 
 func (r *Run) transfer(s *channel.State, fromIdx int, amt []int64) {
@@ -370,7 +399,7 @@ func Execute(sc *Scenario) *Run {
 		e.errf("proposal: %v", err)
 		return r
 	}
-	ctx, cancel := ctxOp()
+	ctx, cancel := r.ctxOp()
 	chP, err := prop.Client.ProposeChannel(ctx, lcp)
 	cancel()
 	if err != nil {
@@ -407,8 +436,32 @@ func Execute(sc *Scenario) *Run {
 				e.waitIdle(fmt.Sprintf("w%d", sc.Honest))
 			}
 		}
+		var arrived, release chan struct{}
+		if st.TS {
+			// the peer's update handler is gated: it answers only after the Settle attempt below has failed
+			arrived, release = make(chan struct{}), make(chan struct{})
+			other.hook = func() { close(arrived); <-release }
+		}
 		other.mu.Unlock()
-		ctx, cancel := ctxOp()
+		ctx, cancel := r.ctxOp()
+		if st.TS {
+			go func() {
+				select {
+				case <-arrived:
+				case <-ctx.Done():
+					return
+				}
+				sctx, scancel := context.WithTimeout(context.Background(), 40*time.Millisecond)
+				serr := root[st.TSBy].Settle(sctx, false)
+				scancel()
+				r.note("settle attempt by %d during the update: %v", st.TSBy, serr)
+				if serr != nil {
+					r.TSDone = true
+					r.deadline = afterTSDeadline
+				}
+				close(release)
+			}()
+		}
 		// a responder whose machine has left the updating phases answers nothing: give up soon after
 		stopDog := make(chan struct{})
 		go func() {
@@ -444,10 +497,16 @@ func Execute(sc *Scenario) *Run {
 			other.mu.Unlock()
 		}
 		r.note("%s by %d accept=%v: %v", st.Kind, st.By, st.Accept, err)
+		if r.TSDone && hung(err) {
+			r.AfterTS = append(r.AfterTS, fmt.Sprintf("%s by %d: %v", st.Kind, st.By, err))
+		}
 	}
 
 steps:
 	for _, st := range sc.Steps {
+		if len(r.AfterTS) > 0 {
+			break // the channel is stuck: judged as it is
+		}
 		switch st.Kind {
 		case "pay":
 			st := st
@@ -498,7 +557,7 @@ steps:
 				r.note("opensub proposal: %v", err)
 				continue
 			}
-			ctx, cancel := ctxOp()
+			ctx, cancel := r.ctxOp()
 			sc1, err := by.Client.ProposeChannel(ctx, sp)
 			cancel()
 			if err != nil {
@@ -556,7 +615,7 @@ steps:
 				wg.Add(1)
 				go func(p *Party) {
 					defer wg.Done()
-					ctx, cancel := ctxOp()
+					ctx, cancel := r.ctxOp()
 					defer cancel()
 					errs[p.I] = ch[p.I].Settle(ctx, false)
 				}(p)
@@ -567,22 +626,28 @@ steps:
 				delete(subs, st.Sub)
 			} else {
 				r.CloseErr = append(r.CloseErr, fmt.Sprintf("sub-channel %d: %v / %v", st.Sub, errs[0], errs[1]))
+				if r.TSDone && (hung(errs[0]) || hung(errs[1])) {
+					r.AfterTS = append(r.AfterTS, fmt.Sprintf("closesub %d: %v / %v", st.Sub, errs[0], errs[1]))
+				}
 			}
 		}
 	}
-	if len(e.Inconclusive) > 0 {
+	if len(e.Inconclusive) > 0 || len(r.AfterTS) > 0 {
 		r.After = r.balances()
 		return r
 	}
 	e.WaitQuiescent()
 	for k, p := range sc.Settle {
-		ctx, cancel := ctxOp()
+		ctx, cancel := r.ctxOp()
 		err := root[p].Settle(ctx, k > 0)
 		cancel()
 		if err == nil {
 			r.Settled[p] = true
 		} else {
 			r.SetErr[p] = err.Error()
+			if r.TSDone && hung(err) {
+				r.AfterTS = append(r.AfterTS, fmt.Sprintf("settle by %d: %v", p, err))
+			}
 		}
 	}
 	e.WaitQuiescent()
@@ -644,7 +709,7 @@ func (r *Run) adversary(adv *Adv) {
 	if t, ok := h.newest(e.Root); ok {
 		newest = t.State.Version
 	}
-	ctx, cancel := ctxOp()
+	ctx, cancel := r.ctxOp()
 	defer cancel()
 	req := channel.AdjudicatorReq{Params: r.Root, Tx: tx, Idx: channel.Index(r.idxOf(m.I))}
 	err := e.L.Handle(m.Acct, "adv").Register(ctx, req, subs)
